@@ -1099,6 +1099,12 @@ func (ex *Exec) checkCallSites(fr *Frame, st *State, callee string, args []Val, 
 	if root == nil || root.ct == nil {
 		return
 	}
+	if ca := root.ct.CutAfter; ca != "" && !ex.cut && (ca == callee || strings.HasSuffix(callee, "."+ca) || strings.HasSuffix(ca, "."+callee)) {
+		defer func() {
+			ex.cut = true
+			ex.note("verified only up to the first call of %s (cutafter): no obligations are generated for the rest of the body", callee)
+		}()
+	}
 	ex.callOrdinal[callee]++
 	ord := ex.callOrdinal[callee]
 	for _, cs := range root.ct.CallSites {
@@ -1452,6 +1458,7 @@ type solveCfg struct {
 	outDir   string
 	timeout  time.Duration
 	first    time.Duration
+	retried  bool
 	workers  int
 	agree    bool // thorough: every available solver must agree
 	stats    *solverStats
@@ -1601,6 +1608,37 @@ func solveAll(exs map[string]*Exec, results []*FuncResult, cfg *solveCfg) {
 	}
 	close(jobs)
 	wg.Wait()
+	// second chance for a few undecided obligations: with the machine to themselves and a longer limit, so that a
+	// loaded machine does not turn a slow proof into an alarm (many undecided obligations are not load: no retry)
+	var again []job
+	for _, r := range results {
+		for _, o := range r.Obls {
+			if !o.Static && !o.Cover && (o.Status == "timeout" || o.Status == "unknown") {
+				again = append(again, job{exs[r.Key], o})
+			}
+		}
+	}
+	if len(again) > 0 && len(again) <= 6 && !cfg.retried {
+		cfg2 := *cfg
+		cfg2.timeout = cfg.timeout * 3
+		cfg2.first = cfg.first * 3
+		cfg2.retried = true
+		sem := make(chan struct{}, 3)
+		var wg2 sync.WaitGroup
+		for _, j := range again {
+			wg2.Add(1)
+			sem <- struct{}{}
+			go func(j job) {
+				defer wg2.Done()
+				defer func() { <-sem }()
+				solveOne(j.ex, j.o, &cfg2)
+				if j.o.Status == "proved" {
+					j.o.Solver += " (second attempt, longer limit)"
+				}
+			}(j)
+		}
+		wg2.Wait()
+	}
 }
 
 func solveOne(ex *Exec, o *Obligation, cfg *solveCfg) {
